@@ -1,6 +1,7 @@
 import Cuke.Lemmas.Sched
 import Cuke.Model.SchedMon
 import Cuke.Lemmas.SchedSerial
+import Cuke.Lemmas.SchedSpin
 /-!
 # C07 — @serial scenarios run in isolation from every other scenario
 Model: `Cuke.getBatch` (serial preference, one at a time), `Cuke.isSerial`, the scheduler LTS, and the
@@ -175,5 +176,33 @@ example : (accept scfg spre).batch.map (fun e => (e.id, e.serial)) = [(12, true)
     (accept scfg spre).endedUnconsumed = 0 ∧
     Cuke.SchedInv.Good (accept scfg (spre ++ [.disp 1 (.cont (some 1))] ++ smid)) = true ∧
     (accept scfg (spre ++ [.disp 1 (.cont (some 1))] ++ smid)).running.map (·.id) = [12] := by decide +kernel
+
+/-! ## User code of other scenarios (whole runs; Lemmas/SchedSpin.lean) -/
+
+open Cuke.SchedSerial Cuke.SchedInv Cuke.SchedSpin in
+/-- **While an attempt runs alone, only ITS user code runs.** As in `lts_alone_until_end`: the single entry `e` is
+    dispatched into an empty runner, then any continuation `mid` without the end of that attempt. If user code — a
+    step, a hook, `World::new` — is then entered (label `cbIn`) and the whole log is replayed without a disagreement,
+    that code belongs to `e`'s scenario: no other scenario's step, hook or World code runs while the serial attempt is
+    in flight. (The acceptor accepts `cbIn` only for an attempt that is dispatched and not yet ended.) -/
+theorem lts_only_own_user_code_while_alone (c : SCfg) (pre mid : List Label) (n : Nat) (sl : Slots) (e : Entry)
+    (sc att t : Nat)
+    (hb : (accept c pre).batch = [e]) (hr : (accept c pre).running = []) (he : (accept c pre).endedUnconsumed = 0)
+    (hno : ∀ l ∈ mid, ∀ f r t, l ≠ .endA e.id f r t)
+    (hc : SchedOrd.Clean0 (accept c (pre ++ [.disp n sl] ++ mid ++ [.cbIn sc att t])) = true) :
+    sc = e.key.scen := by
+  have hstep : accept c (pre ++ [.disp n sl] ++ mid ++ [.cbIn sc att t]) =
+      stepL c (accept c (pre ++ [.disp n sl] ++ mid)) (.cbIn sc att t) := by
+    simp [accept, List.foldl_append]
+  rw [hstep] at hc
+  have hc0 : SchedOrd.Clean0 (accept c (pre ++ [.disp n sl] ++ mid)) = true := SchedOrd.clean0_step_mono c _ _ hc
+  have hg : Good (accept c (pre ++ [.disp n sl] ++ mid)) = true := (SchedOrd.clean0_all _ hc0).1
+  have hal := (lts_alone_until_end c pre mid n sl e hb hr he hno hg).1
+  obtain ⟨_, e', he', hsc, _⟩ := cbIn_clean c _ sc att t (by simpa [SchedOrd.Clean0] using hc0)
+    (by simpa [SchedOrd.Clean0] using hc)
+  have heq : pre ++ Label.disp n sl :: mid = pre ++ [Label.disp n sl] ++ mid := by simp
+  rw [heq, hal] at he'
+  have : e' = e := by simpa using he'
+  rw [← hsc, this]
 
 end Cuke.C07
